@@ -84,6 +84,44 @@ def run(ctx, idx):
     # a line number is optional: commands and arguments added through the API have `lineno=None`.  Ordering by it - sorted / sort /
     # min / max with a key that reads `.lineno`, or `<`-style comparisons of it - raises a raw TypeError on Python 3 as soon as one
     # such command is among the values, in Program's own code, outside every wrapper.
+    # an answer that can be EMPTY is not indexed: `get_close_matches(...)[0]`, `re.findall(...)[0]`, `glob(...)[0]` raise IndexError
+    # when there is no match - in the loader that is a raw error outside every wrapper
+    ctx.rule("C13.i", "In program / command / parameter / utility code the result of a call that may be an empty sequence (difflib.get_close_matches, re.findall, glob, heapq.nlargest / nsmallest, Counter.most_common, a filtered comprehension) is not indexed directly: with no match the IndexError escapes loading as a raw error.")
+    MAYBE_EMPTY = ("get_close_matches", "findall", "glob", "iglob", "nlargest", "nsmallest", "most_common", "split_lines", "splitlines")
+    n_i = 0
+    for mod_, f_, n_ in K.scoped_nodes(idx):
+        if mod_.name.startswith("mpilot.libraries") or "/tests/" in mod_.rel or mod_.name.startswith("mpilot.parser.parsetab"):
+            continue
+        if not (isinstance(n_, ast.Subscript) and isinstance(n_.ctx, ast.Load) and isinstance(n_.slice, ast.Constant) and isinstance(n_.slice.value, int)):
+            continue
+        base_ = n_.value
+        if isinstance(base_, ast.Name) and f_ is not None:
+            base_ = K.expand(f_, base_) or base_
+        kind_ = None
+        if isinstance(base_, ast.Call) and K.src(base_.func).split(".")[-1] in MAYBE_EMPTY:
+            kind_ = K.src(base_.func).split(".")[-1]
+        elif isinstance(base_, ast.ListComp) and any(g_.ifs for g_ in base_.generators):
+            kind_ = "a filtered comprehension"
+        if kind_ is None:
+            continue
+        n_i += 1
+        par_i = {}
+        if f_ is not None:
+            for x_ in ast.walk(f_.node):
+                for ch_ in ast.iter_child_nodes(x_):
+                    par_i[id(ch_)] = x_
+        up_ = par_i.get(id(n_))
+        guarded = False
+        while up_ is not None:
+            if isinstance(up_, ast.Try) and any(h_.type is None or any(nm_ in K.src(h_.type) for nm_ in ("IndexError", "LookupError", "Exception")) for h_ in up_.handlers):
+                guarded = True
+            if isinstance(up_, (ast.If, ast.IfExp)) and (K.src(n_.value) in K.src(up_.test)):
+                guarded = True
+            up_ = par_i.get(id(up_))
+        ctx.ob("C13.i", "%s::indexed-answer(%s)" % (K.where(mod_, f_), kind_), mod_.rel, n_.lineno, guarded, "indexed only after a test / inside a handler" if guarded else
+               "`%s` indexes the answer of %s, which is EMPTY when nothing matches: IndexError escapes as a raw error (the command-line tool ends in a traceback instead of the problem / solution report)" % (K.src(n_)[:60], kind_))
+    if not n_i:
+        ctx.hold("C13.i", "mpilot::no-indexed-maybe-empty-answer", "mpilot/program.py", 1, "no direct index into a possibly empty answer", nontrivial=False)
     ctx.rule("C13.h", "Line numbers are optional (None for commands and arguments added through the API): program / command / parameter code never orders by `.lineno` - no sorted / sort / min / max whose key reads it, no `<`, `<=`, `>`, `>=` on it - because None does not order against None or an int (TypeError outside Command.run's wrapper).")
     n_lines = 0
     found_h = []
